@@ -197,7 +197,9 @@ func (p idxPolicy) Substitute(ev *engine.HintEvent) ([]*big.Int, bool) {
 	return out, true
 }
 
-var c13Corruptions = []string{"leaf", "eval_own_c0", "eval_own_c1", "eval_other_c0", "eval_other_c1", "sibling_initial", "sibling_step", "beta_c0", "beta_c1", "alpha_c0", "alpha_c1", "reduced_opening_c0", "reduced_opening_c1", "final_coeff_c0", "final_coeff_c1", "index_low_bit", "index_mid_bit", "index_high_bit", "cap", "commit_cap"}
+var c13Corruptions = []string{"leaf", "eval_own_c0", "eval_own_c1", "eval_other_c0", "eval_other_c1", "sibling_initial", "sibling_step", "beta_c0", "beta_c1", "alpha_c0", "alpha_c1", "reduced_opening_c0", "reduced_opening_c1", "final_coeff_c0", "final_coeff_c1", "index_low_bit", "index_mid_bit", "index_high_bit", "cap", "commit_cap",
+	// differences that a comparison of packed pairs (v0 + v1*2^32) cannot see
+	"eval_own_p32", "eval_own_m32", "final_coeff0_p32", "final_coeff0_m32"}
 
 func init() {
 	register("C13", func() *fw.Prop {
@@ -622,7 +624,20 @@ func init() {
 						if strings.HasSuffix(corr, "_c0") || strings.HasSuffix(corr, "_c1") {
 							base13 = corr[:len(corr)-3]
 						}
+						shift32 := func(e ref.E, plus bool) ref.E {
+							k := uint64(1 + r.Intn(3))
+							if plus {
+								return ref.E{ref.Sub(e[0], k<<32), ref.Add(e[1], k)}
+							}
+							return ref.E{ref.Add(e[0], k<<32), ref.Sub(e[1], k)}
+						}
 						switch base13 {
+						case "eval_own_p32", "eval_own_m32":
+							st := r.Intn(len(in.q.Steps))
+							pos := (idx >> uint(4*st)) & 15
+							in.q.Steps[st].Evals[pos] = shift32(in.q.Steps[st].Evals[pos], base13 == "eval_own_p32")
+						case "final_coeff0_p32", "final_coeff0_m32":
+							in.finalPoly[0] = shift32(in.finalPoly[0], base13 == "final_coeff0_p32")
 						case "leaf":
 							oi := r.Intn(len(in.q.Initial))
 							k := r.Intn(len(in.q.Initial[oi].Leaf))
